@@ -306,6 +306,10 @@ def _eval_sum(val: list[RealValue], ctx: Context):
             accum = ops.add(accum, x, ctx=ctx)
         return accum
 
+def _zero_sign(x: RealValue) -> bool:
+    """Sign used to break a `+0`/`-0` tie: a `Fraction` zero is `+0`."""
+    return x.s if isinstance(x, Float) else x < 0
+
 def _unchecked_min(vals: list[RealValue]):
     # propagate any NaN input
     for x in vals:
@@ -317,9 +321,7 @@ def _unchecked_min(vals: list[RealValue]):
     for x in vals[1:]:
         if x < result:
             result = x
-        elif (x == result
-            and isinstance(x, Float) and isinstance(result, Float)
-            and x.s and not result.s):
+        elif x == result and _zero_sign(x) and not _zero_sign(result):
             result = x  # x is -0, result is +0 → prefer -0 for min
     return result
 
@@ -339,9 +341,7 @@ def _unchecked_max(vals: list[RealValue]):
     for x in vals[1:]:
         if x > result:
             result = x
-        elif (x == result
-            and isinstance(x, Float) and isinstance(result, Float)
-            and not x.s and result.s):
+        elif x == result and not _zero_sign(x) and _zero_sign(result):
             result = x  # x is +0, result is -0 → prefer +0 for max
     return result
 
